@@ -207,14 +207,25 @@ def rule_n5(repo, col):
                "notify_cycle iterates %s: members of the cycle are skipped" % it, function="StackBasedEngine.notify_cycle")
     body = [norm(s) for s in l.body]
     cur = norm(l.target)
-    okb = any(b.endswith("= self.stack[%s]" % cur) for b in body) and any(".createCycle()" in b and "+=" in b for b in body)
-    col.decide("N5", m, l, okb, "calls createCycle() on every node and accumulates the actions",
-               "notify_cycle must call createCycle() on self.stack[current] for every element and accumulate the returned actions; body: %s" % body,
-               construct="for current in cycle[1:]: createCycle", function="StackBasedEngine.notify_cycle")
+    rets = [r for r in walk_no_nested(f.node) if isinstance(r, ast.Return)]
+    acc = norm(rets[0].value) if rets and rets[0].value is not None else "actions"
+    want = "self.stack[%s].createCycle()" % cur
+    from .. import dtable
+    paths = dtable.extract_block(l.body, opaque_loops=True)
+    okb = bool(paths)
+    for p_ in paths:
+        got = False
+        ev = p_.env.get(acc)
+        if ev is not None and ev.replace(" ", "") in ("(%s)+(%s)" % (acc, want)).replace(" ", ""):
+            got = ev.replace(" ", "") == ("(%s)+(%s)" % (acc, want)).replace(" ", "") or ev.replace(" ", "") == ("%s+%s" % (acc, want)).replace(" ", "")
+        for fn, a, _ in p_.calls:
+            if fn == "%s.extend" % acc and a == [want]:
+                got = True
+        okb = okb and got and p_.end == "fall"
     if any(isinstance(n, (ast.Break, ast.Continue, ast.Return)) for s in l.body for n in ast.walk(s)):
         col.fail("N5", m, l, "notify_cycle leaves or skips inside the loop", construct="for loop exits", function="StackBasedEngine.notify_cycle")
-    rets = [r for r in walk_no_nested(f.node) if isinstance(r, ast.Return)]
-    col.decide("N5", m, rets[0] if rets else f.node, bool(rets) and norm(rets[0].value) == "actions", "returns the collected actions", "notify_cycle must return the collected actions",
+    inits = [st for st in f.node.body if isinstance(st, ast.Assign) and norm(st.targets[0]) == acc and norm(st.value) in ("[]", "list()")]
+    col.decide("N5", m, rets[0] if rets else f.node, len(rets) == 1 and bool(inits) and isinstance(rets[0].value, ast.Name), "returns the collected actions", "notify_cycle must return the collected actions",
                **({} if rets else {"construct": "def notify_cycle: return", "function": "StackBasedEngine.notify_cycle"}))
 
 
